@@ -20,6 +20,16 @@ Stages (see run()):
                       additional variable (spec['tc_extra']: only before the edit, only after it, always), a failing history
                       may edit the toolchain file AND break build.bfg / a rule emission (the attempt then fails after the
                       environment was saved), and its correction may take the toolchain edit back (spec['tc_backout'])
+  failures by environment (spec['envfail']) a tool chosen at configure time - a CC= / CXX= wrapper (C and C++ project), a
+                      program that build.bfg finds with system_executable(), a program the toolchain file looks up with
+                      which() / compiler(strict=True) through the saved PATH - stops working or disappears before the
+                      regeneration: the regeneration must fail visibly, make must fail, and once the tool is repaired
+                      (nothing else changes) the next make regenerates and equals a fresh configure; the exception a
+                      raising script / toolchain file raises is drawn from RAISE_EXCS (OSErrors with and without errno ...)
+  oracle:exit_status  real `bfg9000 configure / regenerate / regenerate --lazy` of a minimal project whose build.bfg,
+                      options.bfg or toolchain file raises each exception of RAISE_EXCS: exit status != 0
+  W:exit_status       driver.handle_reload_exception on constructed exceptions, passed through sys.exit, against the model
+                      State/ExitStatus.v (theorem C10_failed_run_exit_nonzero)
   oracle:regen_inputs every recorded project (build directory after the regeneration and the fresh configure): the inputs of
                       the regeneration step persisted in .bfg_find_cache (what `regenerate --lazy` compares) are the same
                       set as the prerequisites of the build file's regeneration rule (what make / ninja compares)
@@ -53,7 +63,13 @@ RULE = ('projects are drawn from the feature grid find_files yes/no x 0..2 pkg_c
         'emissions and toolchain files that raise are continued by correcting the mistake and regenerating again (make, or '
         'regenerate --lazy by hand and then make), compared with a fresh configure of the corrected tree; failing histories '
         'with two edits at once (toolchain file gains or loses the variable while build.bfg / a rule emission fails after the '
-        'environment was saved) whose correction keeps the toolchain edit or takes it back; for every recorded '
+        'environment was saved) whose correction keeps the toolchain edit or takes it back; failing histories by ENVIRONMENT: a '
+        'tool chosen at configure time (CC= / CXX= wrapper in a C / C+C++ project, a program found by system_executable() in '
+        'build.bfg, by which() / compiler(strict) in the toolchain file) breaks (exits 127) or is removed before the '
+        'regeneration (make / regenerate / regenerate --lazy) and is repaired afterwards; the exception class of raising '
+        'scripts and toolchain files is drawn from 14 (plain errors, OSErrors with errno, message-only OSErrors, exit codes), '
+        'and each of them in build.bfg / options.bfg / the toolchain file of a minimal project must make configure, '
+        'regenerate and regenerate --lazy exit non-zero; handle_reload_exception on 300 constructed exceptions; for every recorded '
         'project the inputs persisted in .bfg_find_cache are compared with the prerequisites of the regeneration rule')
 TRUSTED = ('the history `options`: which options a build directory holds is read off the prefix saved in .bfg_environ',
            'GNU Make 4.3 as the consumer of the Makefile (real tool, run on every crash state)',
@@ -100,8 +116,14 @@ def bfg_text(spec, v2):
     for i in range(spec['pkg']):
         L.append("pkg_config('hello%d', version='1.%d', includes=[hdr], libs=[lib]%s)" % (
             i, 1 if v2 and spec['edit'] in ('script', 'both') else 0, '' if spec['inst'] else ', auto_fill=False'))
+    if spec.get('cxx'):
+        L.append("xlib = library('hellox', files=['src/x.cpp'])")
+    if spec.get('envfail') == 'script-tool':
+        # a program looked up when the script runs (PATH as saved at configure time)
+        L.append("tool = system_executable('c10tool')")
+        L.append("command('runtool', cmd=[tool, 'arg'])")
     if v2 and spec.get('script_raise') == 'script':
-        L.append("raise RuntimeError('C10 injected script failure')")
+        L.append("raise %s" % spec.get('raise_exc', "RuntimeError('C10 injected script failure')"))
     if v2 and spec.get('script_raise') == 'emit':
         # a failure of rule emission (inside backend.write, after the script finished): two steps with one output
         L.append("command('dup', cmd=['touch', 'dup'])")
@@ -122,6 +144,70 @@ def tc_text(gen, broken=False, extra=None):
     return t + ("raise RuntimeError('C10 injected toolchain failure')\n" if broken else '')
 
 
+def tc_file(spec, stage):
+    """Text of the toolchain file at a stage; spec['envfail'] = 'tc-which' / 'tc-compiler': the file looks a program up
+    (strictly) each time it is executed."""
+    gen, broken, extra = tc_state(spec, stage)
+    t = tc_text(gen, False, extra)
+    if spec.get('envfail') == 'tc-which':
+        t += "environ['C10TOOL'] = which('c10tool')\n"
+    elif spec.get('envfail') == 'tc-compiler':
+        t += "compiler('c10cc', 'c', strict=True)\n"
+    if broken:
+        t += "raise %s\n" % spec.get('raise_exc', "RuntimeError('C10 injected toolchain failure')")
+    return t
+
+
+# ---- tools chosen at configure time (spec['envfail']): wrappers and programs in <root>/tools, next to src and build
+ENV_TOOLS = {'c10cc': '#!/bin/sh\nexec cc "$@"\n', 'c10cxx': '#!/bin/sh\nexec c++ "$@"\n',
+             'c10tool': '#!/bin/sh\nexit 0\n'}
+ENV_BROKEN = '#!/bin/sh\necho "%s: toolchain not installed" >&2\nexit 127\n'
+# mode -> (the tool, how it fails: 'broken' = still there but exits 127, 'missing' = removed)
+ENV_MODES = {'cc-broken': ('c10cc', 'broken'), 'cxx-broken': ('c10cxx', 'broken'), 'script-tool': ('c10tool', 'missing'),
+             'tc-which': ('c10tool', 'missing'), 'tc-compiler': ('c10cc', 'missing')}
+
+
+def tools_dir(src):
+    return os.path.join(os.path.dirname(src), 'tools')
+
+
+def write_tool(src, name, text):
+    d = tools_dir(src)
+    os.makedirs(d, exist_ok=True)
+    path = os.path.join(d, name)
+    with open(path, 'w') as f:
+        f.write(text)
+    os.chmod(path, 0o755)
+
+
+def conf_env(spec, src):
+    """The environment of every configure of the project: the tool-selecting variables."""
+    mode = spec.get('envfail')
+    if not mode:
+        return None
+    d = tools_dir(src)
+    if mode == 'cc-broken':
+        return {'CC': os.path.join(d, 'c10cc')}
+    if mode == 'cxx-broken':
+        return {'CXX': os.path.join(d, 'c10cxx')}
+    return {'PATH': d + os.pathsep + common.impl_env()['PATH']}
+
+
+def set_tools(spec, src, working):
+    mode = spec.get('envfail')
+    if not mode:
+        return
+    tool, how = ENV_MODES[mode]
+    for name, text in ENV_TOOLS.items():
+        if name == tool and not working:
+            if how == 'broken':
+                write_tool(src, name, ENV_BROKEN % name)
+            elif os.path.exists(os.path.join(tools_dir(src), name)):
+                os.remove(os.path.join(tools_dir(src), name))
+        else:
+            write_tool(src, name, text)
+
+
 def tc_state(spec, stage):
     """(gen, broken, extra) of the toolchain file at stage 'v1' | 'v2' (after the edit) | 'final' (after the correction of a
     failing history).  spec['tc_extra']: None | 'v1' (only the first version sets the additional variable: the edit drops
@@ -138,8 +224,10 @@ def tc_state(spec, stage):
 def v1_tree(spec):
     t = {'build.bfg': bfg_text(spec, False), 'src/a.c': 'int a(){return 1;}\n', 'main.c': 'int main(){return 0;}\n',
          'include/a.h': '#define A\n', 'extra.c': 'int main(){return 1;}\n'}
+    if spec.get('cxx'):
+        t['src/x.cpp'] = 'int x(){return 3;}\n'
     if spec.get('tc'):
-        t['tc.bfg'] = tc_text(*tc_state(spec, 'v1'))
+        t['tc.bfg'] = tc_file(spec, 'v1')
     return t
 
 
@@ -147,8 +235,9 @@ def apply_edit(spec, src):
     files = {}
     if spec['edit'] == 'options':
         return              # the tree stays as it is; the command line of the second configure differs
+    set_tools(spec, src, False)
     if spec.get('tc') and tc_state(spec, 'v2') != tc_state(spec, 'v1'):
-        files['tc.bfg'] = tc_text(*tc_state(spec, 'v2'))
+        files['tc.bfg'] = tc_file(spec, 'v2')
     if spec['edit'] == 'toolchain':
         pass
     elif spec['edit'] == 'touch':
@@ -164,9 +253,10 @@ def apply_correction(spec, src):
     """The mistake of a history whose regeneration raises is corrected: the edited file as it was meant."""
     files = {}
     if spec.get('tc') and tc_state(spec, 'final') != tc_state(spec, 'v2'):
-        files['tc.bfg'] = tc_text(*tc_state(spec, 'final'))
-    if spec.get('script_raise') != 'toolchain':
+        files['tc.bfg'] = tc_file(spec, 'final')
+    if spec.get('script_raise') not in ('toolchain', 'env'):
         files['build.bfg'] = bfg_text(dict(spec, script_raise=None), True)
+    set_tools(spec, src, True)
     project.write_tree(src, files)
 
 
@@ -174,9 +264,11 @@ def spec_key(spec):
     return 'find=%d pkg=%d inst=%d compdb=%d edit=%s runner=%s%s%s' % (
         spec['find'], spec['pkg'], spec['inst'], spec['compdb'], spec['edit'], spec['runner'],
         ' followup=' + spec['followup'] if spec.get('followup', 'make') != 'make' else '',
-        (' toolchain-file' + (' extra-variable(%s)=%s' % (spec.get('tc_var', 'CPPFLAGS'), spec['tc_extra'])
-                              if spec.get('tc_extra') else '')
-         + (' toolchain-edit-backed-out' if spec.get('tc_backout') else '')) if spec.get('tc') else '')
+        (' tool-chosen-at-configure-time-fails=' + spec['envfail'] + (' c++' if spec.get('cxx') else '')
+         if spec.get('envfail') else '') +
+        ((' toolchain-file' + (' extra-variable(%s)=%s' % (spec.get('tc_var', 'CPPFLAGS'), spec['tc_extra'])
+                               if spec.get('tc_extra') else '')
+          + (' toolchain-edit-backed-out' if spec.get('tc_backout') else '')) if spec.get('tc') else ''))
 
 
 def gen_specs(rng, n, fixed=()):
@@ -253,7 +345,9 @@ class Bench:
             self.trace = os.path.join(self.root, 'trace.jsonl')
             os.mkdir(self.src)
             project.write_tree(self.src, v1_tree(spec))
-            rc, out = project.configure(self.src, self.build, backend=spec['backend'], extra_args=conf_args(spec, src=self.src))
+            set_tools(spec, self.src, True)
+            rc, out = project.configure(self.src, self.build, backend=spec['backend'], extra_args=conf_args(spec, src=self.src),
+                                        extra_env=conf_env(spec, self.src))
             if rc != 0:
                 raise RuntimeError('configure of v1 failed: ' + out[-600:])
             if spec['backend'] == 'make' and spec.get('built', True):      # built=False: configured, never built (no stamp yet)
@@ -269,7 +363,8 @@ class Bench:
             # reference: fresh configure of the edited tree (not for scripts that raise: there is no uninterrupted result)
             self.ref = None
             if not spec.get('script_raise'):
-                rc, out = project.configure(self.src, self.fresh, backend=spec['backend'], extra_args=conf_args(spec, True, src=self.src))
+                rc, out = project.configure(self.src, self.fresh, backend=spec['backend'], extra_args=conf_args(spec, True, src=self.src),
+                                            extra_env=conf_env(spec, self.src))
                 if rc != 0:
                     raise RuntimeError('fresh configure of v2 failed: ' + out[-600:])
                 self.ref = self.contents(self.fresh)
@@ -339,7 +434,7 @@ class Bench:
             return project.run_bfg(['regenerate', '--lazy', self.build], cwd=self.build, extra_env=extra_env)
         if r == 'configure':
             return project.configure(self.src, self.build, backend=self.spec['backend'], extra_args=conf_args(self.spec, True, src=self.src),
-                                     extra_env=extra_env)
+                                     extra_env=dict(conf_env(self.spec, self.src) or {}, **extra_env))
         raise ValueError(r)
 
     def traced_run(self):
@@ -848,7 +943,8 @@ def raise_one(spec):
             time.sleep(0.03)
             apply_correction(spec, b.src)
             time.sleep(0.03)
-            rcf, o = project.configure(b.src, b.fresh, backend=spec['backend'], extra_args=conf_args(spec, True, src=b.src))
+            rcf, o = project.configure(b.src, b.fresh, backend=spec['backend'], extra_args=conf_args(spec, True, src=b.src),
+                                       extra_env=conf_env(spec, b.src))
             if rcf != 0:
                 raise RuntimeError('fresh configure of the corrected tree failed: ' + o[-600:])
             b.ref = b.contents(b.fresh)
@@ -862,6 +958,132 @@ def raise_one(spec):
                     'regen_inputs': regen_inputs(b.src, b.build, spec['backend'])}
     except Exception:
         return {'error': traceback.format_exc()}
+
+
+# what a script, a toolchain file or bfg9000 itself may raise: ordinary errors, OSErrors WITH an errno (a failed system
+# call) and OSErrors carrying only a message (what shell.which / choose_builder raise when a tool lookup fails), exit codes
+RAISE_EXCS = ["RuntimeError('C10 injected failure')", "ValueError('C10 injected failure')", "KeyError('c10')",
+              "FileNotFoundError('C10: unable to find executable (message only)')", "OSError('C10 message only')",
+              "PermissionError('C10 message only')", "FileNotFoundError(2, 'C10 with errno', 'c10file')",
+              "OSError(28, 'C10 no space left')", "NotADirectoryError()", "TimeoutError('C10')", "AssertionError()",
+              "Exception()", "SystemExit(3)", "SystemExit('C10 text status')"]
+# open finding C10-script-exit-code-multiple-of-256: exit(256) in a script is a failure (truthy code: ScriptExitError) whose
+# code the driver hands to sys.exit unchanged - the process status is 256 mod 256 = 0.  Class: the exception is a script exit
+# with a non-zero multiple of 256 AND the status is 0; probed by the exit-status law only
+EXIT256_CLASS = 'script-exit-code-multiple-of-256'
+EXIT256_EXCS = ["SystemExit(256)", "SystemExit(512)"]
+# open finding C10-options-filenotfounderror-swallowed: build._execute_options catches FileNotFoundError around the whole
+# execution of options.bfg (meant for a missing file), so a FileNotFoundError raised INSIDE options.bfg ends the script
+# silently and the run goes on.  Class: options.bfg raises FileNotFoundError AND the run exits 0 AND wrote the build file
+OPTS_FNF_CLASS = 'options-file-filenotfounderror-swallowed'
+
+
+def exit_law_classes(exc, place, rc, out, written):
+    c = []
+    if exc in EXIT256_EXCS and 'failed with exit status %s' % exc[11:-1] in out and not written:
+        c.append(EXIT256_CLASS)
+    if place == 'options.bfg' and exc.startswith('FileNotFoundError(') and rc == 0 and written:
+        c.append(OPTS_FNF_CLASS)
+    return tuple(c)
+
+
+def exit_law_one(exc):
+    """The exit status of the driver: a configure / a regeneration (plain and --lazy) whose build.bfg or toolchain file raises
+    `exc` must end with a non-zero status.  Returns [(command, place, rc, output tail)]."""
+    res = []
+    try:
+        with project.Scratch('c10x') as sc:
+            tc = os.path.join(sc.root, 'tc.bfg')
+            good = {'build.bfg': "project('p', '1.0')\n", 'options.bfg': "argument('name')\n"}
+            project.write_tree(sc.src, good)
+            with open(tc, 'w') as f:
+                f.write("environ['C10X'] = '1'\n")
+            rc, out = project.configure(sc.src, sc.build, extra_args=['--toolchain', tc])
+            if rc != 0:
+                return {'error': 'configure of the sound project failed: ' + out[-400:]}
+            for place in ('build.bfg', 'toolchain file', 'options.bfg'):
+                path = tc if place == 'toolchain file' else os.path.join(sc.src, place)
+                keep = open(path).read()
+                with open(path, 'w') as f:
+                    f.write(keep + 'raise %s\n' % exc)
+                for cmd in ('regenerate', 'regenerate --lazy', 'configure'):
+                    mk = os.path.join(sc.root, 'b2' if cmd == 'configure' else 'build', 'Makefile')
+                    before = os.stat(mk).st_mtime_ns if os.path.exists(mk) else None
+                    if cmd == 'configure':
+                        rc, out = project.configure(sc.src, os.path.join(sc.root, 'b2'), extra_args=['--toolchain', tc])
+                    else:
+                        rc, out = project.run_bfg(cmd.split() + [sc.build], cwd=sc.build)
+                    written = os.path.exists(mk) and os.stat(mk).st_mtime_ns != before
+                    shutil.rmtree(os.path.join(sc.root, 'b2'), ignore_errors=True)
+                    res.append((cmd, place, rc, out[-300:], written))
+                with open(path, 'w') as f:
+                    f.write(keep)
+        return {'exc': exc, 'runs': res}
+    except Exception:
+        return {'error': traceback.format_exc()}
+
+
+def status_of(r):
+    """What sys.exit(r) makes the parent see."""
+    if r is None:
+        return 0
+    if isinstance(r, int):
+        return r & 0xFF
+    return 1
+
+
+def stage_w_exit(rep, rng, n):
+    """W:exit_status - the value driver.handle_reload_exception returns for an exception (ScriptExitError with integer / text
+    codes, OSError subclasses with and without errno, other exceptions), passed through sys.exit, against the model
+    exit_status; direct law: a failed run never has status 0."""
+    import logging
+    from bfg9000 import driver, build as bbuild
+    from bfg9000.environment import EnvVersionError
+    oserrs = [OSError, FileNotFoundError, PermissionError, NotADirectoryError, IsADirectoryError, FileExistsError,
+              TimeoutError, ConnectionError, BlockingIOError]
+    others = [RuntimeError, ValueError, TypeError, KeyError, AttributeError, NameError, IndexError, AssertionError,
+              ZeroDivisionError, Exception, EnvVersionError, UnicodeError, NotImplementedError, StopIteration]
+    cases = []
+    for code in [1, 2, 3, 127, 255, 256, 512, 'text', 'x']:
+        cases.append(([0, [0, code] if isinstance(code, int) else [1, True]], bbuild.ScriptExitError('build.bfg', code)))
+    for _ in range(n):
+        k = rng.random()
+        if k < 0.25:
+            code = rng.randrange(1, 256)
+            cases.append(([0, [0, code]], bbuild.ScriptExitError('build.bfg', code)))
+        elif k < 0.7:
+            cls = rng.choice(oserrs)
+            if rng.random() < 0.5:
+                cases.append(([1, []], cls(rng.choice(['unable to find executable', 'no working c compiler found', '']))))
+            else:
+                errno_ = rng.choice([1, 2, 13, 17, 20, 21, 28, 30, rng.randrange(1, 132)])
+                cases.append(([1, [errno_]], OSError(errno_, os.strerror(errno_), 'some/file')))
+        else:
+            cases.append(([2], rng.choice(others)('message')))
+    calls, res = [], []
+    bad = 0
+    logging.disable(logging.CRITICAL)
+    try:
+        for arg, e in cases:
+            r = driver.handle_reload_exception(e, suggest_rerun=rng.random() < 0.5)
+            st = status_of(r)
+            rep.case('exit:%r:%r' % (type(e).__name__, getattr(e, 'errno', None) or getattr(e, 'code', None)), True)
+            rep.count('exit:' + ('script-exit' if arg[0] == 0 else 'other' if arg[0] == 2 else
+                                 'oserror-errno' if arg[1] else 'oserror-message-only'))
+            calls.append(('exit.status', arg)); res.append(st)
+            if st == 0:
+                if rep.fail('exit status: a regeneration that ends with %s(%s) makes bfg9000 exit with status 0 '
+                            '(handle_reload_exception returns %r): make takes the failed regeneration step for a success'
+                            % (type(e).__name__, ', '.join(repr(a) for a in e.args), r),
+                            {'kind': 'handler-status', 'exception': type(e).__name__, 'args': [repr(a) for a in e.args],
+                             'returned': repr(r)},
+                            classes=(EXIT256_CLASS,) if (arg[0] == 0 and isinstance(r, int) and r != 0 and r % 256 == 0
+                                                         and r == getattr(e, 'code', None)) else ()):
+                    bad += 1
+    finally:
+        logging.disable(logging.NOTSET)
+    dis = common.compare_model(rep, 'W:exit_status', calls, res, lambda name, raw: raw)
+    return bad, [('exit_status', {}, c[1], iv, mv) for _, c, iv, mv in dis]
 
 
 def stage_script_raise(rep, rng, thorough):
@@ -898,16 +1120,61 @@ def stage_script_raise(rep, rng, thorough):
     specs.append({'find': True, 'pkg': 1, 'inst': True, 'compdb': True, 'edit': 'toolchain', 'runner': 'make', 'backend': 'make',
                   'script_raise': 'toolchain', 'tc': True, 'followup': 'make', 'tc_extra': 'v2',
                   'tc_var': rng.choice(sorted(TC_VARS)), 'tc_backout': True})
+    # the class of the exception a raising script / toolchain file raises varies
+    for sp in specs:
+        if sp['script_raise'] in ('script', 'toolchain'):
+            sp['raise_exc'] = rng.choice(RAISE_EXCS)
+    # failures by ENVIRONMENT: a tool chosen at configure time (CC= / CXX= wrapper, a program that build.bfg or the toolchain
+    # file looks up) stops working or disappears before the regeneration; later it is repaired and nothing else changes
+    envs = [('cc-broken', 'make', 'dir', 'make'), ('cxx-broken', 'make', 'dir', 'make'), ('script-tool', 'make', 'script', 'lazy'),
+            ('tc-which', 'regen_lazy', 'dir', 'make'), ('tc-compiler', 'make', 'toolchain', 'make'),
+            ('cc-broken', 'regen', 'script', 'make')]
+    if thorough:
+        envs += [(m, r, e, f) for m in sorted(ENV_MODES) for r in ('make', 'regen', 'regen_lazy', 'configure')
+                 for e in ('dir', 'script') for f in ('make', 'lazy')][::4]
+    else:
+        rng.shuffle(envs)
+        envs = envs[:5]
+    for mode, runner, edit, followup in envs:
+        specs.append({'find': True, 'pkg': rng.choice([0, 1, 1, 2]), 'inst': rng.random() < 0.6, 'compdb': rng.random() < 0.7,
+                      'edit': edit, 'runner': runner, 'backend': 'make', 'script_raise': 'env', 'envfail': mode,
+                      'cxx': mode == 'cxx-broken' or rng.random() < 0.3, 'tc': mode.startswith('tc-') or rng.random() < 0.2,
+                      'followup': followup})
+    excs = (RAISE_EXCS if thorough else RAISE_EXCS[:1] + rng.sample(RAISE_EXCS[1:], 7)) + [rng.choice(EXIT256_EXCS)]
     bad, dis = 0, []
-    with concurrent.futures.ProcessPoolExecutor(max_workers=12) as ex:
+    with concurrent.futures.ProcessPoolExecutor(max_workers=14) as ex:
+        law = [ex.submit(exit_law_one, e) for e in excs]
         outs = list(ex.map(raise_one, specs))
+        law = [f.result() for f in law]
+    nlaw = 0
+    for e, o in zip(excs, law):
+        if 'error' in o:
+            rep.fail('cannot run the exit-status law for ' + e, {'obligation': 'oracle:exit_status', 'error': o['error']},
+                     found_input=False)
+            continue
+        for cmd, place, rc, out, written in o['runs']:
+            nlaw += 1
+            rep.case('exit-status:%s:%s:%s' % (e, place, cmd), True)
+            if rc == 0:
+                if rep.fail('exit status: `bfg9000 %s` of a project whose %s raises %s exits 0 %s (a failed %s must be visible to '
+                            'whoever started it: make touches the stamp / keeps the old build file and never retries)'
+                            % (cmd, place, e, 'and writes the build file as if nothing had happened' if written else
+                               'without writing the build file', 'configure' if cmd == 'configure' else 'regeneration'),
+                            {'kind': 'exit-status', 'exc': e, 'place': place, 'command': cmd, 'rc': rc, 'output': out,
+                             'build_file_written': written},
+                            classes=exit_law_classes(e, place, rc, out, written)):
+                    bad += 1
+    rep.stage('oracle:exit_status', runs=nlaw, exception_classes=len(excs))
     for spec, o in zip(specs, outs):
-        key = spec_key(spec) + ' raise=' + spec['script_raise']
+        key = spec_key(spec) + ' raise=' + spec['script_raise'] + (' (%s)' % spec['raise_exc'] if spec.get('raise_exc') else '')
         if 'error' in o:
             rep.fail('cannot run ' + key, {'obligation': 'oracle:script_raise', 'error': o['error']}, found_input=False)
             continue
         rep.case('raise:' + key, True)
-        rep.count('raise:' + spec['script_raise'])
+        rep.count('raise:' + spec['script_raise'] + (':' + spec['envfail'] if spec.get('envfail') else ''))
+        if spec.get('envfail') and o['rc'] != 0 and not any(t in o['out'] for t in ('unable to find', 'no working')):
+            rep.fail('%s: the regeneration failed, but not because of the tool: %s' % (key, o['out'][-300:]),
+                     {'obligation': 'oracle:script_raise', 'spec': spec, 'result': o}, found_input=False)
         if o['rc'] == 0 or not o['identical'] or o['rc2'] == 0 or not o['identical2']:
             if rep.fail('%s: the failing regeneration exits %d (build file identical: %s); the next make exits %d (identical: %s)'
                         % (key, o['rc'], o['identical'], o['rc2'], o['identical2']), {'spec': spec, 'result': o}):
@@ -1083,7 +1350,13 @@ def run(rep):
     stage_r_make(rep)
     bad, dis2 = stage_crash(rep, fault_specs, traces, kinds)
     bad3, dis3 = stage_script_raise(rep, rng, thorough)
+    bad4, dis4 = stage_w_exit(rep, rng, 1500 if thorough else 300)
     dis = dis + dis2 + dis3
+    if dis4 and not (bad or bad3 or bad4):
+        d = dis4[0]
+        rep.fail('W:exit_status - model and implementation disagree (%d cases), e.g. %r: impl %r, model %r' % (
+            len(dis4), d[2], d[3], d[4]), {'obligation': 'W:exit_status', 'n_disagreements': len(dis4),
+                                            'first': [repr(x) for x in d]}, found_input=False)
     if dis and not (bad or bad3):
         d = dis[0]
         rep.fail('W:%s - model and implementation disagree (%d cases), e.g. %s at %r: impl %r, model %r' % (
@@ -1096,6 +1369,23 @@ def replay(rep, path):
     r = json.load(open(path))
     load_own_findings(rep)
     select_variant(rep)
+    if r.get('kind') == 'exit-status':
+        o = exit_law_one(r['exc'])
+        for cmd, place, rc, out, written in o.get('runs', []):
+            print(cmd, place, rc, written)
+            if rc == 0:
+                rep.fail('exit status: `bfg9000 %s` of a project whose %s raises %s still exits 0' % (cmd, place, r['exc']),
+                         {'kind': 'exit-status', 'exc': r['exc'], 'place': place, 'command': cmd, 'rc': rc, 'output': out},
+                         classes=exit_law_classes(r['exc'], place, rc, out, written))
+        return
+    if 'spec' in r and r['spec'].get('script_raise') and 'n' not in r:
+        o = raise_one(r['spec'])
+        print(json.dumps({k: v for k, v in o.items() if k != 'ops'}, indent=1, default=str)[:3000])
+        if 'error' not in o and (o['rc'] == 0 or not o['identical'] or o['rc2'] == 0 or (o['rc3'] == 0 and any(
+                v != 'new' for v in o['state3'].values()))):
+            rep.fail('%s: the failing regeneration exits %d, the next make %d, after the correction %d with %r' % (
+                spec_key(r['spec']), o['rc'], o['rc2'], o['rc3'], o['state3']), {'spec': r['spec'], 'result': o})
+        return
     if 'spec' not in r or 'n' not in r:
         print(json.dumps(r, indent=1)[:3000])
         return run(rep)
